@@ -715,4 +715,7 @@ def analyse(repo, qualname, env, seeds=None):
     for p, d in fnobj.param_defaults().items():
         f.env.setdefault(p, f.ev(d))
     f.run(fnobj.node.body)
+    tups = [r for r in f.rets if is_(r, "tup")]
+    if tups:
+        f.ret = max(tups, key=lambda r: len(r[1]))
     return W, f
